@@ -5,7 +5,8 @@ import tempfile
 from rope.base import project as rproject, change
 
 HEADERS = {"none": (None, ""), "utf8": ("utf-8", "# -*- coding: utf-8 -*-\n"), "latin1": ("latin-1", "# coding: latin-1\n"), "ascii": ("ascii", "# coding=ascii\n"),
-           "latin1l2": ("latin-1", "#!/usr/bin/env python\n# vim: set fileencoding=latin-1 :\n"), "latin1l2b": ("latin-1", "\n# coding: latin-1\n")}
+           "latin1l2": ("latin-1", "#!/usr/bin/env python\n# vim: set fileencoding=latin-1 :\n"), "latin1l2b": ("latin-1", "\n# coding: latin-1\n"),
+           "latin1ws": ("latin-1", "\x00# coding: latin-1\n"), "latin1l2ws": ("latin-1", "#!/usr/bin/env python\n\x00# coding: latin-1\n")}
 NLS = {"lf": "\n", "crlf": "\r\n", "cr": "\r"}
 
 
@@ -13,6 +14,7 @@ def replay(f):
     w = f["witness"]
     mode, hd, nlname = f["instance"].split(".")[:3]
     enc, header = HEADERS[hd]
+    header = header.replace("\x00", w.get("ws", " "))  # the symbolic blank before the coding comment
     nl = NLS[nlname]
     body = w.get("body", "")
     logical = header + body
